@@ -428,6 +428,14 @@ pub struct CallObs {
 
 /// `now0` is the clock at the lookup; the body takes `plan.dur_ns`.
 pub fn check_call(m: &Model, cfg: &FnCfg, plan: &CallPlan, obs: &CallObs, now0: i64) -> Result<Model, Clause> {
+    let (m1, hit_stamp) = check_call_begin(m, cfg, plan, obs, now0)?;
+    check_call_end(m, &m1, cfg, plan, obs, hit_stamp, now0 + plan.dur_ns, now0)
+}
+
+/// First half of a call: the lookup and the invalidate_on consultation. Returns the model after
+/// the lookup and, if the lookup was a hit, the stamp it found. `obs.exec_stamp` says whether the
+/// body started; `obs.keys_after` / `obs.stats` are NOT consulted here.
+pub fn check_call_begin(m: &Model, cfg: &FnCfg, plan: &CallPlan, obs: &CallObs, now0: i64) -> Result<(Model, Option<u64>), Clause> {
     let k = plan.k;
     let p = &m.p;
     let executed = obs.exec_stamp.is_some();
@@ -531,6 +539,20 @@ pub fn check_call(m: &Model, cfg: &FnCfg, plan: &CallPlan, obs: &CallObs, now0: 
             format!("invalidate_on consulted with stamps {:?}, expected {:?} for key {k} [{}]", obs.inv_seen, exp_inv, p.short()),
         ));
     }
+    Ok((m1, hit_stamp))
+}
+
+/// Second half of a call: what it stored, the cache_if consultation and the statistics.
+/// `m_before` is the model before the call's lookup (for diagnosis only), `m1` the model the
+/// store applies to (the state after the lookup, possibly evolved by other operations while the
+/// call was suspended), `now1` the clock at the store.
+#[allow(clippy::too_many_arguments)]
+pub fn check_call_end(m_before: &Model, m1: &Model, cfg: &FnCfg, plan: &CallPlan, obs: &CallObs, hit_stamp: Option<u64>, now1: i64, now0: i64) -> Result<Model, Clause> {
+    let m = m_before;
+    let m1 = m1.clone();
+    let k = plan.k;
+    let p = &m.p;
+    let looks = m.lookup(k, now0);
     let exp_cif: Vec<u64> = match (cfg.has_cache_if, obs.exec_stamp) {
         (true, Some(s)) => vec![s],
         _ => vec![],
@@ -552,7 +574,6 @@ pub fn check_call(m: &Model, cfg: &FnCfg, plan: &CallPlan, obs: &CallObs, now0: 
                 format!("call for key {k} executed the body (stamp {stamp}, err={}) but returned stamp {} err={}", plan.err, obs.ret_stamp, obs.ret_err),
             ));
         }
-        let now1 = now0 + plan.dur_ns;
         let mut keep = if cfg.has_cache_if { plan.cif_verdict } else { true };
         let mut why_not = Gone::PredRejected;
         if cfg.is_result {
